@@ -45,9 +45,13 @@ Definition activate (f : list N) (hdr : nat -> option src) (st : cstate) (tid : 
 Definition cstep (f : list N) (hdr : nat -> option src) (st : cstate) (ev : nat * opk) : cstate :=
   let '(tid, k) := ev in
   match tid with
-  | Datatypes.O =>   (* the reader: GetTip on whatever the store is right now *)
-    {| c_store := c_store st; c_active := c_active st; c_order := c_order st; c_outs := c_outs st;
-       c_tips := option_map id (tipB (c_store st)) :: c_tips st; c_bad := c_bad st |}
+  | Datatypes.O =>   (* the reader: GetTip on whatever the store is right now; its other repository reads
+                        (the lookups of a common-ancestor request) leave the state alone *)
+    match k with
+    | OpT => {| c_store := c_store st; c_active := c_active st; c_order := c_order st; c_outs := c_outs st;
+                c_tips := option_map id (tipB (c_store st)) :: c_tips st; c_bad := c_bad st |}
+    | _ => st
+    end
   | _ =>
     let st1 := activate f hdr st tid in
     match k with
